@@ -160,6 +160,7 @@ class Built:
         self.codes = []      # per add() call: OK / TYPEERR / VALERR
         self.isif = []       # per add() call: [is csr.Interface, data width of the subordinate]
         self.kids = []       # placed: (start, stop, sub_aw, Built | leaf dict, signals-bearing interface, map)
+        self.refused = []    # (interface, uid) of leaf interfaces whose add() was refused with ValueError
 
 
 def _MockReg(width, access):
@@ -223,6 +224,8 @@ def build(cfg):
                 continue
             except ValueError:
                 b.codes.append(VALERR)
+                if not isinstance(child, Built) and port is not None:
+                    b.refused.append((port, child["uid"]))
                 continue
             b.codes.append(OK)
             b.kids.append((r[0], r[1], saw, child, port, mmap))
@@ -288,11 +291,22 @@ def run_impl(case):
         return [1, meta]
     meta = walk(root)
     bus = root.dec.bus
-    ins = [bus.addr, bus.r_stb, bus.w_stb, bus.w_data] + [p.r_data for (p, _u) in leaves]
+    # interfaces whose add() was refused are not part of the decoder: they keep talking (non-zero r_data every
+    # cycle) and must have no influence on it
+    refused = []
+
+    def collect(b):
+        refused.extend(b.refused)
+        for k in b.kids:
+            if isinstance(k[3], Built):
+                collect(k[3])
+    collect(root)
+    ins = [bus.addr, bus.r_stb, bus.w_stb, bus.w_data] + [p.r_data for (p, _u) in leaves] + [p.r_data for (p, _u) in refused]
     outs = [bus.r_data]
     for (p, _u) in leaves:
         outs += [p.addr, p.r_stb, p.w_stb, p.w_data]
-    stim = [[a, r, w, d] + [rds[u] for (_p, u) in leaves] for (a, r, w, d, rds) in case["stim"]]
+    stim = [[a, r, w, d] + [rds[u] for (_p, u) in leaves] + [rds[u] | 1 for (_p, u) in refused]
+            for (a, r, w, d, rds) in case["stim"]]
     rows = S.simulate(m, ins, outs, stim)
     obs = [[[row[1 + 4 * k: 5 + 4 * k] for k in range(len(leaves))], row[0]] for row in rows]
     return [codes, obs, meta]
